@@ -71,14 +71,14 @@ def retTime : Option (Int × Outcome) → Option Int
 
 /-- The retry budget `T·(2^n − 1)` of a call with `n ≥ 0` tries: the instant at
 which the last per-try deadline fires. -/
-def budget (T n : Int) : Int := T * (2 ^ n.toNat - 1)
+def callBudget (T n : Int) : Int := T * (2 ^ n.toNat - 1)
 
 /-- Arrival instants are counted from the start of the call and never go back. -/
 def Ordered (arr : List (Int × α)) : Prop := (∀ a ∈ arr, 0 ≤ a.1) ∧ arr.Pairwise (fun a b => a.1 ≤ b.1)
 
 /-- Every arrival is strictly before the budget (no condition when `n < 0`:
 the call retries for ever). -/
-def InBudget (T n : Int) (arr : List (Int × α)) : Prop := 0 ≤ n → ∀ a ∈ arr, a.1 < budget T n
+def InBudget (T n : Int) (arr : List (Int × α)) : Prop := 0 ≤ n → ∀ a ∈ arr, a.1 < callBudget T n
 
 /-- ONE `SendAndRead` call run on the timed machine: timeout `T`, `n` tries,
 matcher `m`, the routed stream `arr` with its instants (all applied at
